@@ -305,6 +305,15 @@ func (c *CEnv) evalField(e *CExpr) Val {
 						return n.evalIdent(&CExpr{Kind: "id", Name: e.Name})
 					}
 				}
+				if c.pkg != nil {
+					for _, imp := range c.pkg.Imports() {
+						if imp.Name() == e.Args[0].Name {
+							if o, ok := imp.Scope().Lookup(e.Name).(*types.Const); ok {
+								return x.constVal(o.Val(), x.w.goTy(o.Type(), x.model.BV))
+							}
+						}
+					}
+				}
 			}
 		}
 	}
@@ -623,8 +632,44 @@ func (c *CEnv) evalCall(e *CExpr) Val {
 	}
 	// method-style pure call: recv.Method(args)
 	if strings.HasPrefix(e.Name, ".") {
+		// pkg.Func(args) for a deterministic function of another package
+		if e.Args[0].Kind == "id" {
+			if _, isB := c.bound[e.Args[0].Name]; !isB {
+				known := false
+				if c.lookup != nil {
+					_, known = c.lookup(e.Args[0].Name)
+				}
+				if !known {
+					key := e.Args[0].Name + "." + e.Name[1:]
+					if fc, ok := x.eng.contracts[key]; ok && fc.Pure {
+						if fi := x.eng.funcs[key]; fi != nil {
+							var vs []Val
+							for _, a := range e.Args[1:] {
+								vs = append(vs, c.eval(a))
+							}
+							return x.detCall(key, fi.Obj.Type().(*types.Signature), nil, vs, 0)
+						}
+					}
+				}
+			}
+		}
 		vs := args()
 		recv := vs[0]
+		// deterministic method of a repo type
+		if recv.Ty.Go != nil {
+			t := recv.Ty.Go
+			if p, ok := t.Underlying().(*types.Pointer); ok {
+				t = p.Elem()
+			}
+			if n, ok := types.Unalias(t).(*types.Named); ok && n.Obj().Pkg() != nil {
+				key := n.Obj().Pkg().Name() + "." + n.Obj().Name() + "." + e.Name[1:]
+				if fc, ok := x.eng.contracts[key]; ok && fc.Pure {
+					if fi := x.eng.funcs[key]; fi != nil {
+						return x.detCall(key, fi.Obj.Type().(*types.Signature), &recv, vs[1:], 0)
+					}
+				}
+			}
+		}
 		return x.pureMethodCall(c, e, recv, e.Name[1:], vs[1:])
 	}
 	// spec function
@@ -638,19 +683,7 @@ func (c *CEnv) evalCall(e *CExpr) Val {
 			if fi := x.eng.funcs[key]; fi != nil {
 				sig := fi.Obj.Type().(*types.Signature)
 				if sig.Recv() == nil && sig.Results().Len() >= 1 {
-					vs := args()
-					var sorts []Sort
-					var ts []*Term
-					for j, a := range vs {
-						pty := x.w.goTy(sig.Params().At(j).Type(), x.model.BV)
-						t := x.coerceTo(a, pty)
-						sorts = append(sorts, t.Sort)
-						ts = append(ts, t)
-					}
-					rty := x.w.goTy(sig.Results().At(0).Type(), x.model.BV)
-					fn := fmt.Sprintf("det_%s_%d", sanitize(key), 0)
-					x.sym.Func(fn, sorts, x.w.sortOf(rty, x.model))
-					return Val{T: mk(fn, x.w.sortOf(rty, x.model), ts...), Ty: rty}
+					return x.detCall(key, sig, nil, args(), 0)
 				}
 			}
 		}
